@@ -36,7 +36,12 @@ BATCHES = {           # name -> (width, [line content seeds])
 }
 BNAMES = sorted(BATCHES)
 EVENTS = [(b, c) for b in BNAMES for c in (True, False)]
-BOUNDS = {'quick': dict(depth=2, models=MODELS_Q), 'thorough': dict(depth=3, models=MODELS_T)}
+WIDE_MODELS = [(1, 2, 16, 1, 'wide'), (2, 2, 16, 0, 'wide')]
+RO_BATCHES = {'a': (256, [21, 22]), 'b': (512, [23, 24]), 'c': (256, [25, 26]), 'd': (512, [27]), 'e': (1088, [28, 29])}    # run_ocr input batches
+RO_NAMES = sorted(RO_BATCHES)
+BIG = [('n255', 255, 0), ('n256', 256, 0), ('n257', 257, 0), ('n256+3', 256, 3)]      # (name, lines that survive step 0, lines that end at step 0)
+BOUNDS = {'quick': dict(depth=2, models=MODELS_Q, ro_depth=2, ro_models=WIDE_MODELS[:1], big_models=MODELS_Q[:2]),
+          'thorough': dict(depth=3, models=MODELS_T, ro_depth=3, ro_models=WIDE_MODELS, big_models=MODELS_Q)}
 BOUNDS['replay'] = BOUNDS['thorough']
 TOL = 1e-4
 _M, _ALONE = {}, {}
@@ -54,7 +59,8 @@ class StubFrontend:
 def build_model(spec):
     import torch
     from pero_ocr.ocr_engine.transformer import TransformerOCR, LineSelfAttentionEncoder
-    depth, heads, width, seed = spec
+    depth, heads, width, seed = spec[:4]
+    wide = len(spec) > 4              # run_ocr pads every batch to 1088 px: 136 encoder positions, up to 272 decoding steps
 
     class Frontend(torch.nn.Module):
         def __init__(self):
@@ -66,9 +72,9 @@ def build_model(spec):
             return torch.tanh(self.conv(x) * 3.0)[:, :, 0, :]        # [N, C, W/8]
 
     torch.manual_seed(1000 + seed * 17 + depth * 3 + heads)
-    enc = LineSelfAttentionEncoder(dropout=0.0, max_seq_len=64, dim_model=width, dim_ff=2 * width, nb_heads=heads, nb_layers=1)
+    enc = LineSelfAttentionEncoder(dropout=0.0, max_seq_len=160 if wide else 64, dim_model=width, dim_ff=2 * width, nb_heads=heads, nb_layers=1)
     net = TransformerOCR(Frontend(), enc, num_classes=NCLS, dropout=0.0, nb_layers=depth, dim_model=width, dim_ff=2 * width,
-                         max_seq_len=40, nb_heads=heads)
+                         max_seq_len=300 if wide else 40, nb_heads=heads)
     with torch.no_grad():
         for p in net.parameters():
             if p.dim() > 1:
@@ -90,7 +96,7 @@ def build_model(spec):
             sb = lg[:, :, SB] + 1e4
             lg[:, :, SB] = -np.inf
             gaps.append((lg.max(axis=-1) - sb).reshape(-1))
-        net.dec_out_proj.bias[SB] = float(np.quantile(np.concatenate(gaps), 0.3))
+        net.dec_out_proj.bias[SB] = float(np.quantile(np.concatenate(gaps), 0.6 if wide else 0.3))
         for layer in net.trans_decoder.layers:          # leave no cache behind
             layer.memory_tgt = None
             layer.self_attn.linear_cache = None
@@ -133,6 +139,12 @@ def shards(tier):
     for mi in range(len(BOUNDS[tier]['models'])):
         for first in range(len(EVENTS)):
             out.append({'model': mi, 'first': first})
+    for mi in range(len(BOUNDS[tier]['ro_models'])):
+        for first in range(len(RO_NAMES)):
+            out.append({'ro_model': mi, 'first': first})
+    for mi in range(len(BOUNDS[tier]['big_models'])):
+        for bi in range(len(BIG)):
+            out.append({'big_model': mi, 'big': bi})
     return out
 
 
@@ -141,6 +153,15 @@ def run_shard(shard, ctx, tier):
     import sys
     mod = sys.modules[__name__]
     b = BOUNDS[tier]
+    if 'ro_model' in shard:
+        spec = b['ro_models'][shard['ro_model']]
+        for L in range(1, b['ro_depth'] + 1):
+            for rest in itertools.product(range(len(RO_NAMES)), repeat=L - 1):
+                guarded_check(mod, {'model': list(spec), 'run_ocr': list(rest) + [shard['first']]}, ctx)
+        return
+    if 'big_model' in shard:
+        guarded_check(mod, {'model': list(b['big_models'][shard['big_model']]), 'big': shard['big']}, ctx)
+        return
     spec = b['models'][shard['model']]
     for L in range(1, b['depth'] + 1):
         for rest in itertools.product(range(len(EVENTS)), repeat=L - 1):
@@ -168,8 +189,113 @@ def cache_state(net):
     return h.hexdigest()
 
 
+def ro_images(name):
+    w, seeds = RO_BATCHES[name]
+    return np.stack([line_image(sd, w).transpose(1, 2, 0) for sd in seeds])          # [N, H, W, 3] uint8, as process_lines hands them over
+
+
+def check_run_ocr(case, ctx):
+    """histories of run_ocr calls (the entry point the line engine uses: pads every batch to 1088 px) on one engine object"""
+    import contextlib
+    import io
+    import torch
+    spec = case['model']
+    hist = [RO_NAMES[i] for i in case['run_ocr']]
+    eng = make_engine(copy.deepcopy(pristine(spec)))
+    K = f'{ID}/run_ocr'
+    with torch.no_grad(), contextlib.redirect_stdout(io.StringIO()), ctx.time_limit(120):
+        for name in hist:
+            imgs = ro_images(name)
+            keep = imgs.copy()
+            dec, logits = eng.run_ocr(imgs)
+        fresh = make_engine(copy.deepcopy(pristine(spec)))
+        dec0, logits0 = fresh.run_ocr(ro_images(hist[-1]))
+        singles = [make_engine(copy.deepcopy(pristine(spec))).run_ocr(ro_images(hist[-1])[i:i + 1]) for i in range(len(dec0))]
+    ctx.executed(len(hist) + 1 + len(dec0))
+    ctx.state((tuple(spec), 'run_ocr', tuple(hist)))
+    desc = f'model {tuple(spec)}, run_ocr on batches {[(n, RO_BATCHES[n]) for n in hist]} (width px, line seeds) in turn on one engine'
+    if not np.array_equal(imgs, keep):
+        ctx.violation('independent-of-earlier-batches', f'{K}/modifies-its-input', f'{desc}: the image batch passed in was modified')
+        return
+    n = min(logits.shape[1], logits0.shape[1])
+    if list(dec) != list(dec0) or logits.shape != logits0.shape or float(np.abs(logits[:, :n] - logits0[:, :n]).max()) > TOL:
+        d = float(np.abs(logits[:, :n] - logits0[:, :n]).max())
+        ctx.violation('independent-of-earlier-batches', f'{K}/depends-on-earlier-batches',
+                      f'{desc}: the last batch gives {list(dec)} (scores differ by {d:.4g}, {logits.shape[1]} steps); a fresh engine gives {list(dec0)} '
+                      f'({logits0.shape[1]} steps)')
+        return
+    for i, (d1, l1) in enumerate(singles):
+        m = min(l1.shape[1], logits0.shape[1])
+        end = next((t for t, sy in enumerate(l1[0].argmax(axis=-1)) if sy == SB), l1.shape[1])
+        m = min(m, end + 1)
+        if float(np.abs(l1[0, :m] - logits0[i, :m]).max()) > TOL:
+            ctx.violation('independent-of-other-lines', f'{K}/line-depends-on-its-batch',
+                          f'{desc}: line {i} of the last batch scores differently when given to run_ocr alone')
+            return
+    ctx.outcome(('run_ocr', tuple(len(x) for x in dec)))
+    if len(hist) > 1 and RO_BATCHES[hist[-2]][0] > RO_BATCHES[hist[-1]][0] and len(RO_BATCHES[hist[-2]][1]) == len(RO_BATCHES[hist[-1]][1]):
+        ctx.nontrivial((tuple(spec), tuple(hist)), 'run_ocr-narrower-batch-after-a-wider-one')
+    ctx.tag('run_ocr-histories')
+
+
+_POOL = {}
+
+
+def big_pool(spec):
+    """line seeds 100.. of width 32 px split by whether the line, decoded alone, ends at step 0"""
+    key = tuple(spec)
+    if key not in _POOL:
+        later, first = [], []
+        for sd in range(100, 760):
+            syms, lg = alone(spec, sd, 32)
+            (first if int(lg[0].argmax()) == SB else later).append(sd)
+        _POOL[key] = (later, first)
+    return _POOL[key]
+
+
+def check_big(case, ctx):
+    """batches whose number of unfinished lines sits at a byte boundary (255 / 256 / 257 lines survive the first step)"""
+    import contextlib
+    import io
+    import torch
+    spec = case['model']
+    name, n_later, n_first = BIG[case['big']]
+    later, first = big_pool(spec)
+    if len(later) < n_later or len(first) < n_first:
+        from mc.core import HarnessError
+        raise HarnessError(f'line pool too small: {len(later)} / {len(first)}')
+    seeds = later[:n_later // 2] + first[:n_first] + later[n_later // 2:n_later]
+    imgs = np.stack([line_image(sd, 32) for sd in seeds]).astype(np.float32)
+    eng = make_engine(copy.deepcopy(pristine(spec)))
+    K = f'{ID}/big-batch'
+    with torch.no_grad(), contextlib.redirect_stdout(io.StringIO()), ctx.time_limit(300):
+        outs, logits = eng.transcribe_batch(imgs.copy(), is_cached=True)
+    logits = logits.numpy()
+    ctx.executed(1 + len(seeds))
+    ctx.state((tuple(spec), 'big', name))
+    desc = f'model {tuple(spec)}, one cached batch of {len(seeds)} lines x 32 px of which {n_first} end at the first step'
+    if len(outs) != len(seeds):
+        ctx.violation('per-line-results', f'{K}/result-count', f'{desc}: {len(outs)} transcriptions')
+        return
+    for li, sd in enumerate(seeds):
+        a_syms, a_logits = alone(spec, sd, 32)
+        syms = [int(x) for x in outs[li]]
+        n = min(a_logits.shape[0], logits.shape[1])
+        clear = bool(np.all(np.sort(a_logits, axis=-1)[:, -1] - np.sort(a_logits, axis=-1)[:, -2] > 1e-3))
+        if logits.shape[1] < min(a_logits.shape[0], 32 // 4) or float(np.abs(a_logits[:n] - logits[li, :n]).max()) > TOL or (clear and syms != a_syms):
+            ctx.violation('equals-line-decoded-alone', f'{K}/differs-from-line-alone',
+                          f'{desc}: line {li} -> {syms} in {logits.shape[1]} steps; decoded alone {a_syms} in {a_logits.shape[0]} steps')
+            return
+    ctx.outcome(('big', name, logits.shape[1]))
+    ctx.tag('batch-at-a-byte-boundary')
+
+
 def check_case(case, ctx):
     import torch
+    if 'run_ocr' in case:
+        return check_run_ocr(case, ctx)
+    if 'big' in case:
+        return check_big(case, ctx)
     spec = case['model']
     hist = [EVENTS[i] for i in case['hist']]
     net = copy.deepcopy(pristine(spec))
@@ -272,7 +398,7 @@ def describe(tier):
         'alphabets': {'batches(width, line seeds)': BATCHES, 'events': len(EVENTS)},
         'assumptions': ['scores compared within 1e-4 (float32)', 'transcripts compared only when every deciding arg-max margin exceeds 1e-3'],
         'min_nontrivial': 50,
-        'required_tags': ['lines-finish-at-different-steps', 'line-hit-the-length-cap', 'previous-batch-of-same-size-and-width',
+        'required_tags': ['run_ocr-histories', 'run_ocr-narrower-batch-after-a-wider-one', 'batch-at-a-byte-boundary', 'lines-finish-at-different-steps', 'line-hit-the-length-cap', 'previous-batch-of-same-size-and-width',
                           'previous-batch-of-same-size-other-width', 'cached-and-uncached-calls-mixed',
                           'line-finished-at-first-step-while-others-continue', 'ignore-symbol-emitted-mid-line'],
     }
